@@ -30,6 +30,9 @@ _XSD = """<xs:schema xmlns:xs="http://www.w3.org/2001/XMLSchema" targetNamespace
         <xs:element name="d" type="xs:decimal" minOccurs="0"/><xs:element name="e" type="xs:date" minOccurs="0" maxOccurs="unbounded"/>
       </xs:sequence></xs:complexType></xs:element>
    <xs:element name="l" minOccurs="0"><xs:simpleType><xs:list itemType="xs:int"/></xs:simpleType></xs:element>
+   <xs:element name="m" minOccurs="0" maxOccurs="unbounded"><xs:simpleType><xs:list itemType="xs:int"/></xs:simpleType></xs:element>
+   <xs:element name="n" minOccurs="0"><xs:complexType><xs:simpleContent><xs:extension base="xs:int">
+        <xs:attribute name="u" type="xs:string"/></xs:extension></xs:simpleContent></xs:complexType></xs:element>
  </xs:sequence><xs:attribute name="id" type="xs:int" use="required"/></xs:complexType></xs:element></xs:schema>"""
 SCHEMA = xmlschema.XMLSchema10(_XSD)
 CONV = {
@@ -40,6 +43,8 @@ A_TEXT = ["1", "01", "-5"]
 B_VARIANTS = [[], [("s", None)], [("s", "true"), ("t t", "0")], [("", "1")]]
 C_VARIANTS = [None, (None, []), ("1.0", []), ("2", ["2000-01-01"]), (None, ["2000-01-01", "1999-12-31"])]
 L_VARIANTS = [None, "1 2 3", "7"]
+# (occurrences of the repeatable list element m, the simple-content-with-attribute element n as (text, attribute u))
+X_VARIANTS = [([], None), (["4 5 6"], ("0", "px")), (["1", "2 3"], ("5", None)), ([], ("0", None))]
 
 
 def configure(cfg):
@@ -53,7 +58,7 @@ def _a(kw, name):
 
 
 def pre_inst(fn, **kw):
-    lim = {"a": len(A_TEXT), "b": len(B_VARIANTS), "c": len(C_VARIANTS), "l": len(L_VARIANTS), "m": 12, "pos": 6}
+    lim = {"a": len(A_TEXT), "b": len(B_VARIANTS), "c": len(C_VARIANTS), "l": len(L_VARIANTS), "x": len(X_VARIANTS), "m": 12, "pos": 6}
     for k, v in kw.items():
         if not (0 <= v < min(lim[k], CFG.get("lims", {}).get(k, lim[k]))):
             return False
@@ -73,6 +78,11 @@ def _instance(kw):
         xml += '<p:c>%s%s</p:c>' % ('' if d is None else '<p:d>%s</p:d>' % d, ''.join('<p:e>%s</p:e>' % e for e in es))
     if lv is not None:
         xml += '<p:l>%s</p:l>' % lv
+    ms, nv = X_VARIANTS[pick(_a(kw, "x"), len(X_VARIANTS))]
+    for t in ms:
+        xml += '<p:m>%s</p:m>' % t
+    if nv is not None:
+        xml += '<p:n%s>%s</p:n>' % ('' if nv[1] is None else ' u="%s"' % nv[1], nv[0])
     return xml + '</p:r>'
 
 
@@ -197,16 +207,19 @@ def obligations(tier, seed):
     quick = tier == "quick"
     out = []
     for conv in CONV:
-        out.append({"name": "roundtrip/%s" % conv, "fn": "h_roundtrip", "pre": "pre_inst", "args": [[a, "int"] for a in ("a", "b", "c", "l")],
-                    "config": {"converter": conv, "lims": {"a": 2, "b": 3, "c": 4, "l": 2} if quick else {}}, "timeout": 900 if quick else 3000, "twin_timeout": 40,
-                    "bound": "instances: a from %r, b from %r, c from %r, l from %r" % (A_TEXT, B_VARIANTS, C_VARIANTS, L_VARIANTS)})
+        for lfix in ((0, 1) if quick else (None,)):
+            out.append({"name": "roundtrip/%s%s" % (conv, "" if lfix is None else "/l=%d" % lfix), "fn": "h_roundtrip", "pre": "pre_inst",
+                        "args": [[a, "int"] for a in ("a", "b", "c", "l", "x") if not (a == "l" and lfix is not None)],
+                        "config": {"converter": conv, "lims": {"a": 2, "b": 3, "c": 3} if quick else {}, "fixed": {} if lfix is None else {"l": lfix}},
+                        "timeout": 900 if quick else 3000, "twin_timeout": 40,
+                        "bound": "instances: a from %r, b from %r, c from %r, l from %r, (m, n) from %r" % (A_TEXT, B_VARIANTS, C_VARIANTS, L_VARIANTS, X_VARIANTS)})
     from engine.known import open_regions
     skip = set(open_regions(__name__, "h_encode_sound"))
     for m in range(len(MUTATIONS)):
         if "mutation:" + MUTATIONS[m] in skip:
             continue          # the whole obligation is the recorded finding (its stored witness is still replayed)
         out.append({"name": "encode-sound/%s" % MUTATIONS[m], "fn": "h_encode_sound", "pre": "pre_inst",
-                    "args": [[a, "int"] for a in (("b", "c", "l") if quick else ("a", "b", "c", "l"))],
-                    "config": {"converter": "default", "fixed": {"m": m}, "lims": {"b": 3, "c": 4, "l": 2} if quick else {}}, "timeout": 600 if quick else 3000, "twin_timeout": 40,
+                    "args": [[a, "int"] for a in (("b", "c", "x") if quick else ("a", "b", "c", "l", "x"))],
+                    "config": {"converter": "default", "fixed": {"m": m}, "lims": {"b": 3, "c": 3} if quick else {}}, "timeout": 600 if quick else 3000, "twin_timeout": 40,
                     "bound": "mutation %s applied to the decoded data of every instance of the bound" % MUTATIONS[m]})
     return out
